@@ -8,7 +8,9 @@ package main
 //     entries outside the destination are not removed or modified, a copy does not change its source.
 
 import (
+	"bufio"
 	"context"
+	"encoding/json"
 	"fmt"
 	"os"
 	"os/exec"
@@ -28,6 +30,7 @@ import (
 
 func init() {
 	subs["fsprog"] = fsProgMain
+	subs["fsprog-child"] = fsProgChild
 	subs["fscrash"] = func([]string) {
 		fs := filesystem.NewFs(filesystem.InMemoryFS)
 		_ = fs.MkDir("/r/a/c")
@@ -221,137 +224,97 @@ func (b *fsBackend) exec(o fsOp) string {
 	return "?"
 }
 
-func isUnder(p, root string) bool {
-	root = strings.TrimSuffix(root, "/")
-	return root == "." || p == root || strings.HasPrefix(p, root+"/")
+
+type childResult struct {
+	Prog       string         `json:"prog"`
+	Nontrivial bool           `json:"nontrivial"`
+	Results    []progRes      `json:"results"`
+	Failures   []hx.Failure   `json:"failures"`
+	Hist       map[string]int `json:"hist"`
 }
 
-func fsProgMain(args []string) {
-	o := hx.ParseOpts(args)
-	rep := hx.NewReport("programs of 1..40 calls (mkdir, touch, write, read, exists, isfile, isdir, isempty, ls, lsr, rm, clean, cp, mv, size) over paths of depth 1..3 on the names {a,b,c,d} (and the root), " +
-		"destinations with and without trailing separator, source equal to / parent of / inside the destination, from a random initial tree of 0..8 entries; executed on MemMapFs and on OsFs. " +
-		"non-trivial = program with at least one cp/mv/rm/clean on an existing entry; distinct = (initial tree, program).")
-	drv, err := hx.StartDriver(o.Driver)
-	if err != nil {
-		fmt.Println("driver:", err)
-	}
-	defer drv.Close()
-	rnd := hx.NewRand(o.Seed)
-	n := 500
-	if o.Thorough() {
-		n = 30000
-	}
-	tmp, _ := os.MkdirTemp("", "verif-fsprog")
-	defer os.RemoveAll(tmp)
-	var lines []string
-	type progRes struct {
-		backend string
-		outs    []string
-		dump    string
-		prog    string
-	}
-	var results [][]progRes
-	opNames := []string{"mkdir", "touch", "write", "read", "exists", "isfile", "isdir", "isempty", "ls", "lsr", "rm", "clean", "cp", "cp", "cp", "mv", "mv", "size"}
-	for i := 0; i < n; i++ {
-		// initial tree
-		type ent struct {
-			p    string
-			file bool
-			n    int
+type progRes struct {
+	Backend string   `json:"backend"`
+	Outs    []string `json:"outs"`
+	Dump    string   `json:"dump"`
+	Prog    string   `json:"prog"`
+}
+
+type miniRep struct {
+	fails []hx.Failure
+	hist  map[string]int
+}
+
+func (m *miniRep) Fail(f hx.Failure) { m.fails = append(m.fails, f) }
+func (m *miniRep) Hist(k string)     { m.hist[k]++ }
+
+func parseProg(prog string) (init []struct {
+	p    string
+	file bool
+	n    int
+}, ops []fsOp) {
+	parts := strings.SplitN(prog, " -- ", 2)
+	for _, e := range strings.Fields(parts[0]) {
+		kv := strings.SplitN(e, "=", 2)
+		if len(kv) != 2 {
+			continue
 		}
-		var init []ent
-		seen := map[string]bool{}
-		for k := rnd.Intn(9); k > 0; k-- {
-			p := genPath(rnd, false)
-			parts := strings.Split(p, "/")
-			okp := true
-			for j := 1; j < len(parts) && okp; j++ {
-				anc := strings.Join(parts[:j], "/")
-				if !seen[anc] {
-					seen[anc] = true
-					init = append(init, ent{p: anc})
-				} else {
-					for _, e := range init {
-						if e.p == anc && e.file {
-							okp = false
-						}
-					}
-				}
-			}
-			for _, e := range init {
-				if strings.HasPrefix(e.p, p+"/") {
-					okp = false // p already has entries below it: it must stay a directory
-				}
-			}
-			if !okp || seen[p] {
+		if kv[1] == "d" {
+			init = append(init, struct {
+				p    string
+				file bool
+				n    int
+			}{p: kv[0]})
+		} else {
+			n, _ := strconv.Atoi(strings.TrimPrefix(kv[1], "f"))
+			init = append(init, struct {
+				p    string
+				file bool
+				n    int
+			}{kv[0], true, n})
+		}
+	}
+	if len(parts) == 2 {
+		for _, o := range strings.Split(parts[1], " ; ") {
+			f := strings.Fields(o)
+			if len(f) < 2 {
 				continue
 			}
-			seen[p] = true
-			if rnd.Chance(55) {
-				init = append(init, ent{p: p, file: true, n: rnd.Intn(6)})
-			} else {
-				init = append(init, ent{p: p})
-			}
-		}
-		var ops []fsOp
-		for k := rnd.Range(1, 14); k > 0; k-- {
-			op := fsOp{name: hx.Pick(rnd, opNames), a: genPath(rnd, true), n: 1 + rnd.Intn(6)}
-			if op.name == "cp" || op.name == "mv" {
-				op.b = genPath(rnd, true)
-				if rnd.Chance(25) && op.b != "." {
-					op.b += "/"
-				}
-				if op.name == "mv" {
-					op.b = strings.TrimSuffix(op.b, "/")
-					if op.b == "." {
-						op.b = hx.Pick(rnd, fsNames)
-					}
-				}
-				switch rnd.Intn(8) {
-				case 0:
-					op.b = op.a // same
-				case 1:
-					op.b = op.a + "/" + hx.Pick(rnd, fsNames) // destination inside the source
-				case 2:
-					if strings.Contains(op.a, "/") {
-						op.b = op.a[:strings.LastIndex(op.a, "/")] // destination = parent of the source
-					}
-				}
-				if op.a == "." {
-					op.a = hx.Pick(rnd, fsNames)
-				}
-			}
-			if (op.name == "write" || op.name == "touch" || op.name == "rm" || op.name == "mkdir") && op.a == "." {
-				op.a = hx.Pick(rnd, fsNames)
-			}
-			if op.b != "" {
-				slash := strings.HasSuffix(op.b, "/")
-				op.b = filepath.Clean(op.b)
-				if slash && op.b != "." {
-					op.b += "/"
+			op := fsOp{name: f[0], a: f[1]}
+			if len(f) > 2 {
+				if f[0] == "write" {
+					op.n, _ = strconv.Atoi(f[2])
+				} else {
+					op.b = f[2]
 				}
 			}
 			ops = append(ops, op)
 		}
-		if o.Thorough() && i%10 == 0 {
-			for k := rnd.Range(10, 26); k > 0; k-- {
-				ops = append(ops, fsOp{name: hx.Pick(rnd, opNames[:12]), a: genPath(rnd, true), n: 1 + rnd.Intn(6)})
-			}
-		}
-		var entS, opS []string
-		for _, e := range init {
-			if e.file {
-				entS = append(entS, fmt.Sprintf("%s=f%d", e.p, e.n))
-			} else {
-				entS = append(entS, e.p+"=d")
-			}
-		}
-		for _, op := range ops {
-			opS = append(opS, op.String())
-		}
-		prog := strings.Join(entS, " ") + " -- " + strings.Join(opS, " ; ")
-		nontriv := false
-		var rs []progRes
+	}
+	return
+}
+
+func fsProgChild(args []string) {
+	tmp := args[0]
+	in := bufio.NewScanner(os.Stdin)
+	in.Buffer(make([]byte, 1<<20), 1<<26)
+	seq := 0
+	for in.Scan() {
+		prog := in.Text()
+		seq++
+		cr := runProgram(prog, filepath.Join(tmp, fmt.Sprintf("c%d_%d", os.Getpid(), seq)))
+		b, _ := json.Marshal(cr)
+		fmt.Println(string(b))
+	}
+}
+
+func runProgram(prog string, osRoot string) childResult {
+	rep := &miniRep{hist: map[string]int{}}
+	init, ops := parseProg(prog)
+	nontriv := false
+	var rs []progRes
+	i := 0
+	_ = i
 		for _, bn := range []string{"mem", "os"} {
 			b := &fsBackend{name: bn}
 			if bn == "mem" {
@@ -361,7 +324,7 @@ func fsProgMain(args []string) {
 				b.vfs = filesystem.NewVirtualFileSystem(b.rec, filesystem.InMemoryFS, filesystem.IdentityPathConverterFunc)
 			} else {
 				b.base = afero.NewOsFs()
-				b.root = filepath.Join(tmp, fmt.Sprintf("p%d", i))
+				b.root = osRoot
 				b.rec = newRecFs(b.base)
 				b.vfs = filesystem.NewVirtualFileSystem(b.rec, filesystem.StandardFS, filesystem.IdentityPathConverterFunc)
 			}
@@ -374,7 +337,12 @@ func fsProgMain(args []string) {
 				}
 			}
 			var outs []string
+			corrupted := false
 			for _, op := range ops {
+				if corrupted {
+					outs = append(outs, "err:conflict")
+					break
+				}
 				_, before := b.dump()
 				b.rec.reset()
 				done := make(chan string, 1)
@@ -442,6 +410,7 @@ func fsProgMain(args []string) {
 						}
 						if bn == "mem" && strings.HasPrefix(v, "f") && av == "d" && isUnder(dest, p) && p != dest {
 							key = "memory-backend-turns-file-ancestor-into-directory"
+							corrupted = true // MemMapFs is now internally inconsistent: a later Rename may kill the process
 						}
 						rep.Fail(hx.Failure{Kind: "impl-violates-property", Key: key, Case: bn + ": " + prog, Expected: "entries outside the destination untouched", Observed: fmt.Sprintf("%s: %s was %s, now %q", op, p, v, av)})
 					}
@@ -452,11 +421,224 @@ func fsProgMain(args []string) {
 			}
 			d, _ := b.dump()
 			rs = append(rs, progRes{bn, outs, d, prog})
+			if bn == "os" {
+				_ = os.RemoveAll(osRoot)
+			}
 			rep.Hist("program:" + bn)
 		}
-		rep.Eval(prog, nontriv)
-		lines = append(lines, "fsprog "+prog)
-		results = append(results, rs)
+	return childResult{Prog: prog, Nontrivial: nontriv, Results: rs, Failures: rep.fails, Hist: rep.hist}
+}
+
+func isUnder(p, root string) bool {
+	root = strings.TrimSuffix(root, "/")
+	return root == "." || p == root || strings.HasPrefix(p, root+"/")
+}
+
+func fsProgMain(args []string) {
+	o := hx.ParseOpts(args)
+	rep := hx.NewReport("programs of 1..40 calls (mkdir, touch, write, read, exists, isfile, isdir, isempty, ls, lsr, rm, clean, cp, mv, size) over paths of depth 1..3 on the names {a,b,c,d} (and the root), " +
+		"destinations with and without trailing separator, source equal to / parent of / inside the destination, from a random initial tree of 0..8 entries; executed on MemMapFs and on OsFs. " +
+		"non-trivial = program with at least one cp/mv/rm/clean on an existing entry; distinct = (initial tree, program).")
+	drv, err := hx.StartDriver(o.Driver)
+	if err != nil {
+		fmt.Println("driver:", err)
+	}
+	defer drv.Close()
+	rnd := hx.NewRand(o.Seed)
+	n := 500
+	if o.Thorough() {
+		n = 30000
+	}
+	tmp, _ := os.MkdirTemp("", "verif-fsprog")
+	defer os.RemoveAll(tmp)
+	var lines []string
+	var results [][]progRes
+	var progs []string
+	opNames := []string{"mkdir", "touch", "write", "read", "exists", "isfile", "isdir", "isempty", "ls", "lsr", "rm", "clean", "cp", "cp", "cp", "mv", "mv", "size"}
+	if o.Replay != "" {
+		n = 0
+		for _, c := range hx.ReplayCases(o.Replay, "fsprog ") {
+			progs = append(progs, strings.TrimPrefix(c, "fsprog "))
+		}
+	}
+	for i := 0; i < n; i++ {
+		// initial tree
+		type ent struct {
+			p    string
+			file bool
+			n    int
+		}
+		var init []ent
+		seen := map[string]bool{}
+		for k := rnd.Intn(9); k > 0; k-- {
+			p := genPath(rnd, false)
+			parts := strings.Split(p, "/")
+			okp := true
+			for j := 1; j < len(parts) && okp; j++ {
+				anc := strings.Join(parts[:j], "/")
+				if !seen[anc] {
+					seen[anc] = true
+					init = append(init, ent{p: anc})
+				} else {
+					for _, e := range init {
+						if e.p == anc && e.file {
+							okp = false
+						}
+					}
+				}
+			}
+			for _, e := range init {
+				if strings.HasPrefix(e.p, p+"/") {
+					okp = false // p already has entries below it: it must stay a directory
+				}
+			}
+			if !okp || seen[p] {
+				continue
+			}
+			seen[p] = true
+			fileChance := 65
+			if len(parts) == 1 {
+				fileChance = 25 // a file at the top level turns every path through it into a kind conflict
+			}
+			if rnd.Chance(fileChance) {
+				init = append(init, ent{p: p, file: true, n: rnd.Intn(6)})
+			} else {
+				init = append(init, ent{p: p})
+			}
+		}
+		var ops []fsOp
+		for k := rnd.Range(1, 14); k > 0; k-- {
+			op := fsOp{name: hx.Pick(rnd, opNames), a: genPath(rnd, true), n: 1 + rnd.Intn(6)}
+			if op.name == "cp" || op.name == "mv" {
+				op.b = genPath(rnd, true)
+				if rnd.Chance(25) && op.b != "." {
+					op.b += "/"
+				}
+				if op.name == "mv" {
+					op.b = strings.TrimSuffix(op.b, "/")
+					if op.b == "." {
+						op.b = hx.Pick(rnd, fsNames)
+					}
+				}
+				switch rnd.Intn(8) {
+				case 0:
+					op.b = op.a // same
+				case 1:
+					op.b = op.a + "/" + hx.Pick(rnd, fsNames) // destination inside the source
+				case 2:
+					if strings.Contains(op.a, "/") {
+						op.b = op.a[:strings.LastIndex(op.a, "/")] // destination = parent of the source
+					}
+				}
+				if op.a == "." {
+					op.a = hx.Pick(rnd, fsNames)
+				}
+			}
+			if (op.name == "write" || op.name == "touch" || op.name == "rm" || op.name == "mkdir" || op.name == "clean" || op.name == "mv") && op.a == "." {
+				op.a = hx.Pick(rnd, fsNames)
+			}
+			if op.b != "" {
+				slash := strings.HasSuffix(op.b, "/")
+				op.b = filepath.Clean(op.b)
+				if slash && op.b != "." {
+					op.b += "/"
+				}
+			}
+			ops = append(ops, op)
+		}
+		if o.Thorough() && i%10 == 0 {
+			for k := rnd.Range(10, 26); k > 0; k-- {
+				ops = append(ops, fsOp{name: hx.Pick(rnd, opNames[:12]), a: genPath(rnd, false), n: 1 + rnd.Intn(6)})
+			}
+		}
+		var entS, opS []string
+		for _, e := range init {
+			if e.file {
+				entS = append(entS, fmt.Sprintf("%s=f%d", e.p, e.n))
+			} else {
+				entS = append(entS, e.p+"=d")
+			}
+		}
+		for _, op := range ops {
+			opS = append(opS, op.String())
+		}
+		progs = append(progs, strings.Join(entS, " ")+" -- "+strings.Join(opS, " ; "))
+	}
+	// ---- execution in child processes (a crash of the in-memory backend must not take the harness down) ----
+	exe, _ := os.Executable()
+	next := 0
+	for next < len(progs) {
+		cmd := exec.Command(exe, "fsprog-child", tmp)
+		stdin, _ := cmd.StdinPipe()
+		stdout, _ := cmd.StdoutPipe()
+		var stderr strings.Builder
+		cmd.Stderr = &stderr
+		if err := cmd.Start(); err != nil {
+			rep.Fail(hx.Failure{Kind: "harness-error", Key: "child-start", Detail: err.Error()})
+			break
+		}
+		go func(from int) {
+			for _, p := range progs[from:] {
+				fmt.Fprintln(stdin, p)
+			}
+			stdin.Close()
+		}(next)
+		sc := bufio.NewScanner(stdout)
+		sc.Buffer(make([]byte, 1<<20), 1<<26)
+		linesCh := make(chan []byte, 64)
+		go func() {
+			for sc.Scan() {
+				linesCh <- append([]byte{}, sc.Bytes()...)
+			}
+			close(linesCh)
+		}()
+		hung := false
+	readLoop:
+		for {
+			select {
+			case raw, ok := <-linesCh:
+				if !ok {
+					break readLoop
+				}
+				var cr childResult
+				if err := json.Unmarshal(raw, &cr); err != nil {
+					continue
+				}
+				for _, f := range cr.Failures {
+					rep.Fail(f)
+				}
+				for k, v := range cr.Hist {
+					rep.HistN(k, v)
+				}
+				rep.Eval(cr.Prog, cr.Nontrivial)
+				lines = append(lines, "fsprog "+cr.Prog)
+				results = append(results, cr.Results)
+				next++
+			case <-time.After(15 * time.Second):
+				hung = true
+				_ = cmd.Process.Kill()
+				break readLoop
+			}
+		}
+		werr := cmd.Wait()
+		if next < len(progs) && (werr != nil || hung) {
+			// the child died (or had to be killed after 15 s without an answer) while running progs[next]
+			msg := stderr.String()
+			key := "call-crashes-the-process"
+			if hung {
+				key = "call-hangs-the-process"
+				msg = "no answer within 15 s (a recovered panic inside the in-memory backend leaves its lock held) " + msg
+			}
+			if strings.Contains(msg, "MemMapFs") {
+				key = "memory-backend-crashes-the-process"
+			}
+			if len(msg) > 600 {
+				msg = msg[:600]
+			}
+			rep.Fail(hx.Failure{Kind: "impl-violates-property", Key: key, Case: "fsprog " + progs[next], Expected: "every call returns", Observed: msg})
+			rep.Eval(progs[next], true)
+			next++
+		}
 	}
 	// ---- the crash of Move(dir, dir/sub) on the in-memory backend, in a child process ----------
 	{
@@ -504,44 +686,48 @@ func fsProgMain(args []string) {
 					limit = conflictAt
 				}
 				okAll := true
-				for k := 0; k < limit && k < len(r.outs); k++ {
-					if r.outs[k] != mouts[k] {
+				rep.HistN("calls-compared-with-the-model:"+r.Backend, limit)
+				for k := 0; k < limit && k < len(r.Outs); k++ {
+					if r.Outs[k] != mouts[k] {
 						okAll = false
-						opTxt := strings.Split(strings.SplitN(r.prog, " -- ", 2)[1], " ; ")[k]
+						opTxt := strings.Split(strings.SplitN(r.Prog, " -- ", 2)[1], " ; ")[k]
 						key := "result:" + strings.Fields(opTxt)[0]
 						other := results[i][0]
-						if other.backend == r.backend {
+						if other.Backend == r.Backend {
 							other = results[i][1]
 						}
-						if k < len(other.outs) && other.outs[k] == mouts[k] {
+						if k < len(other.Outs) && other.Outs[k] == mouts[k] {
 							// the other backend behaves as the reference model: the two backends disagree on a conflict-free call
-							k2 := "backends-disagree:" + strings.Fields(opTxt)[0] + ":" + r.backend + "=" + r.outs[k] + "/model=" + mouts[k]
-							if r.backend == "mem" && (strings.Fields(opTxt)[0] == "write" || strings.Fields(opTxt)[0] == "touch") && mouts[k] == "err:notfound" && r.outs[k] == "ok" {
+							k2 := "backends-disagree:" + strings.Fields(opTxt)[0] + ":" + r.Backend + "=" + r.Outs[k] + "/model=" + mouts[k]
+							if r.Backend == "mem" && (strings.Fields(opTxt)[0] == "write" || strings.Fields(opTxt)[0] == "touch") && mouts[k] == "err:notfound" && r.Outs[k] == "ok" {
 								k2 = "memory-backend-creates-missing-parents"
 							}
-							rep.Fail(hx.Failure{Kind: "impl-violates-property", Key: k2, Case: lines[i] + " [call #" + strconv.Itoa(k) + ": " + opTxt + "]", Expected: "both backends: " + mouts[k], Observed: r.backend + ": " + r.outs[k]})
+							if r.Backend == "mem" && strings.Contains(strings.Join(strings.Split(strings.SplitN(r.Prog, " -- ", 2)[1], " ; ")[:k], " ; ")+" ;", "mv ") {
+								k2 = "memory-backend-move-onto-existing-directory-drops-its-content"
+							}
+							rep.Fail(hx.Failure{Kind: "impl-violates-property", Key: k2, Case: lines[i] + " [call #" + strconv.Itoa(k) + ": " + opTxt + "]", Expected: "both backends: " + mouts[k], Observed: r.Backend + ": " + r.Outs[k]})
 							break
 						}
-						rep.Fail(hx.Failure{Kind: "model-impl-divergence", Key: key + ":" + r.backend, Case: lines[i] + " [" + r.backend + " call #" + strconv.Itoa(k) + ": " + opTxt + "]", Expected: "model: " + mouts[k], Observed: "impl: " + r.outs[k]})
+						rep.Fail(hx.Failure{Kind: "model-impl-divergence", Key: key + ":" + r.Backend, Case: lines[i] + " [" + r.Backend + " call #" + strconv.Itoa(k) + ": " + opTxt + "]", Expected: "model: " + mouts[k], Observed: "impl: " + r.Outs[k]})
 						break
 					}
 				}
-				if okAll && conflictAt < 0 && len(r.outs) == len(mouts) && r.outs[len(r.outs)-1] != "noreturn" {
+				if okAll && conflictAt < 0 && len(r.Outs) == len(mouts) && r.Outs[len(r.Outs)-1] != "noreturn" {
 					md := parts[1]
 					other := results[i][0]
-					if other.backend == r.backend {
+					if other.Backend == r.Backend {
 						other = results[i][1]
 					}
-					if md != r.dump && other.dump == md {
-						key := "backends-disagree:final-tree:" + r.backend
-						if r.backend == "mem" && strings.Contains(r.prog, "mv ") {
+					if md != r.Dump && other.Dump == md {
+						key := "backends-disagree:final-tree:" + r.Backend
+						if r.Backend == "mem" && strings.Contains(r.Prog, "mv ") {
 							key = "memory-backend-move-onto-existing-directory-drops-its-content"
 						}
-						rep.Fail(hx.Failure{Kind: "impl-violates-property", Key: key, Case: lines[i], Expected: "both backends: " + md, Observed: r.backend + ": " + r.dump})
-					} else if md != r.dump {
-						rep.Fail(hx.Failure{Kind: "model-impl-divergence", Key: "final-tree:" + r.backend, Case: lines[i] + " [" + r.backend + "]", Expected: "model: " + md, Observed: "impl: " + r.dump})
+						rep.Fail(hx.Failure{Kind: "impl-violates-property", Key: key, Case: lines[i], Expected: "both backends: " + md, Observed: r.Backend + ": " + r.Dump})
+					} else if md != r.Dump {
+						rep.Fail(hx.Failure{Kind: "model-impl-divergence", Key: "final-tree:" + r.Backend, Case: lines[i] + " [" + r.Backend + "]", Expected: "model: " + md, Observed: "impl: " + r.Dump})
 					} else {
-						rep.Hist("model=impl:" + r.backend)
+						rep.Hist("model=impl:" + r.Backend)
 					}
 				}
 			}
